@@ -171,6 +171,14 @@ def rand_update(rng, mk, h=0, forms=('pix', 'pix', 'ring', 'setitem_arr', 'setit
         a = rng.randrange(npix)
         s = rng.choice([1, 1, 2, 3, 7])
         b = min(npix, a + s * rng.randint(1, 10))
+        r0 = rng.random()
+        if r0 < 0.12:
+            # empty slices with an explicit stop (0 included) must write nothing
+            a = rng.choice([0, a])
+            b = rng.choice([0, 0, a])
+            s = 1
+        elif r0 < 0.2:
+            a, s = 0, 1        # explicit start 0
         st['slice'] = [a, b, s]
         st['pixels'] = list(range(a, b, s))
     else:
